@@ -2,6 +2,8 @@
 package c14
 
 import (
+	"github.com/golang/glog"
+
 	"context"
 	"fmt"
 	"io"
@@ -385,10 +387,13 @@ func TestChild(t *testing.T) {
 	defer wr.Close()
 	client.BusyLoopDelay = 200 * time.Microsecond
 	col := child.NewCollector(wr)
+	// logging calls are points at which the real code can be held up (format, global
+	// mutex, write): the silent stand-in gives that timing back without the mutex
+	glog.SetStall(func() { time.Sleep(30 * time.Microsecond) })
 	var b int
 	fmt.Sscanf(sp.Arg, "%d", &b)
 	cat := catalogue()
-	reps := 2
+	reps := 4
 	if sp.Tier == "thorough" {
 		reps = 8
 	}
